@@ -55,9 +55,9 @@ type Out struct {
 }
 
 type extractor struct {
-	fset  *token.FileSet
-	lit   *ast.FuncLit
-	stmts []Stmt
+	fset   *token.FileSet
+	lit    *ast.FuncLit
+	stmts  []Stmt
 	defers []Stmt
 }
 
